@@ -5,7 +5,7 @@ A *case* is a dict: idx, klass, act=(mode, err, flags), recs=[rec...], ops=[op..
   op  = ('U', bytes) | ('TN',) | ('T', bytes) | ('TS',)
 The script text (see harness/h_dnssrv.c) is the single source of truth: the oracle re-reads the script
 file, so a replay needs nothing but the script lines of one case."""
-import hashlib, os, random, struct, sys
+import hashlib, os, random, struct, sys, time
 from concurrent.futures import ProcessPoolExecutor
 from ref import dnswire_srv as W
 
@@ -833,6 +833,9 @@ def run_check(prop, tier, seed, rule, required, assumptions):
                     os.unlink(sp[2])
                 except OSError:
                     pass
+            if rounds > 1:
+                vlib.log("%s %s: round %d/%d done, %d cases judged, %d distinct violation keys so far, %.0fs"
+                         % (prop, tier, rd + 1, rounds, evaluated, len(set(v["key"] for v in res.viol)), time.time() - res.t0))
             for o, r in zip(outs, results):
                 # keep the raw output only of jobs that produced a report
                 keys = list(o["keys"]) + [v[0] for v in r["viols"]]
